@@ -166,6 +166,8 @@ def trace_leg(pid, tier, seed, corpus_name, decls, declfile, modes, budget, prof
         st = vlib.trace_stats(shards)
         st.update({"profile": profile, "shards": len(shards), "build_s": round(tb, 1), "validate_s": round(tv, 1),
                    "tlc_states": sum(r["generated"] for r in results)})
+        if not stats["runs"]:
+            st["binding_demo"] = binding_demo(shards[0], declfile)
         stats["runs"].append(st)
         # profile independence (C16): the recorded traces must be byte-identical across profiles
         import hashlib
@@ -231,6 +233,39 @@ def sim_leg(pid, tier, seed, crate, decls, declfile, num, depth, profile="dev"):
     return {"behaviours": len(behs), "steps_replayed": int(m.group(2)), "depth": depth, "ops": ops, "tlc_states_generated": r["generated"],
             "declarations_hit": len({b["decl"] for b in behs}), "wall_s": round(time.time() - t0, 1),
             "sample": {"decl": behs[0]["decl"], "steps": behs[0]["steps"][:3]}}
+
+
+def binding_demo(shard, declfile):
+    """vacuity guard, run on every check run: one logged observation of an accepted trace is corrupted (one bit flipped in a
+    result / post-state) and TLC must reject the trace at exactly that line; one event is dropped and TLC must notice."""
+    lines = open(shard).read().splitlines()
+    pick = None
+    for k in range(len(lines) // 2, len(lines)):
+        ev = json.loads(lines[k])
+        if ev["ev"] in ("get", "with", "set", "raw", "build", "new") and ("res" in ev or "dst_raw" in ev or "raw" in ev):
+            pick = k
+            break
+    if pick is None:
+        return {"skipped": "no observable event in the second half of the first shard"}
+    ev = json.loads(lines[pick])
+
+    def flip(bits):
+        return [b for b in bits if b != 0] if 0 in bits else [0] + bits
+    if ev["ev"] == "with":
+        ev["dst_raw"] = flip(ev["dst_raw"])
+    elif ev["ev"] in ("set", "build"):
+        ev["raw"] = flip(ev["raw"])
+    elif ev["res"]["k"] in ("var", "ok"):
+        ev["res"]["name"] = ev["res"]["name"] + "_"
+    else:
+        ev["res"]["v"] = flip(ev["res"]["v"])
+    bad = shard + ".corrupt"
+    open(bad, "w").write("\n".join(lines[:pick] + [json.dumps(ev)] + lines[pick + 1:]) + "\n")
+    r = vlib.validate([bad], declfile)[0]
+    os.remove(bad)
+    if r["status"] != "rejected" or r["line"] != pick + 1:
+        raise ToolError("binding demo failed: a corrupted observation at line %d of %s was not rejected there (%s)" % (pick + 1, shard, r))
+    return {"corrupted_event": lines[pick][:200], "corrupted_line": pick + 1, "rejected_at_line": r["line"]}
 
 
 def replay(pid, path):
